@@ -18,14 +18,14 @@ EMPTY = 'E'              # the empty node () as a nested target
 ALPHABETS = {
     'wide': {
         'concepts': [ABSENT, 'x', 'a', NOCONCEPT, '"s"', 'x~1'],
-        'roles': [':r', ':q', ':r-of', ':q-of', ':', ':r~1', ':r-of~e.2', ':op1', ':op2', ':op10'],
-        'atoms': ['k', '7', '-', '"s t"', '"(~/:#\\""', '"s"~2', None],
+        'roles': [':r', ':q', ':r-of', ':q-of', ':', ':r~e.3', ':r-of~e.2', ':op1', ':op2', ':op10'],
+        'atoms': ['k', '7', '-', '"s t"', '"(~/:#\\""', '"s"~2', None, 'c'],
         'refs': 'all+aligned',
     },
     'mid': {
         'concepts': [ABSENT, 'x', 'a'],
         'roles': [':r', ':q', ':r-of', ':r~1'],
-        'atoms': ['k', '"s"~2', '7'],
+        'atoms': ['k', '"s"~1', 'c'],
         'refs': 'all+aligned0',
     },
     'narrow': {
@@ -102,7 +102,7 @@ def slots(shape, alpha, dupvars=False):
         refs = refs + [v + '~' + v + '.3' for v in refs]
     elif mode == 'none':
         refs = []
-    atoms = list(alpha['atoms']) + refs
+    atoms = list(dict.fromkeys(list(alpha['atoms']) + refs))     # a constant spelled like a variable of this tree is that reference
     domains = []
     counter = [0]
 
